@@ -137,6 +137,9 @@ def search_cases(tier, seed):
                                                         k_values=(1, 5, 50), with_matrix_level=False)):
             if spaces.precondition_ok(c):
                 out.append(c)
+    # weakly correlated panels: designs failing DIFFERENT subsets of the four tests compete (the lexicographic order of the
+    # flag tuple, not the number of passed tests, decides)
+    out += spaces.weak_space(methods=sc.METHODS, k_values=(2, 5, 50))
     return out
 
 
